@@ -79,7 +79,7 @@ var (
 	costSha2   = []int{1000, 1001, 1003, 1000, 1009, 1010, 1000, 1099, 1100, 1001, 2000, 9999, 10000, 1003}
 	costSha1   = []int{1, 2, 3, 4, 5, 6, 7, 8, 9, 10, 11, 12, 13, 14, 15, 16, 17, 18, 19, 20, 21, 22, 23, 24, 25, 26, 27, 28, 29, 30, 31, 32, 33, 34, 35, 36, 37, 38, 39, 40, 99, 100, 101, 1000}
 	costSunmd5 = []int{0, 1, 2, 0, 9, 10, 1, 11, 99, 100, 2}
-	costDesext = []int{1, 2, 3, 4, 5, 63, 64, 65, 1, 4095, 4096, 4097, 3}
+	costDesext = []int{1, 2, 3, 4, 5, 63, 64, 65, 1, 262144, 4096, 4097, 3, 262143, 4095, 300001} // odd positions 9, 13, 15: counts that need the fourth character of the field (C02 bases use even positions)
 	costBcrypt = []int{4, 5, 4, 6, 5, 7, 4, 8, 5, 9, 4, 10}
 	costArgonM = []int{8, 9, 10, 11, 12, 13, 14, 15, 16, 31, 32, 33, 63, 64, 65, 99, 100, 1024}
 	costArgonT = []int{1, 2, 1, 3, 2, 9, 1, 10, 2, 11}
